@@ -16,19 +16,22 @@ CONSTANTS Op,         \* "FIND" "FINDREPO" "GET" "MOVE" (iterators) or "SINGLE" 
           MaxItems
 
 Pending == 65280  Success == 0  WarnLimit == 45057  WarnSub == 45056  Failure == 42752  Cancel == 65024
+ProcFail == 272
 Empty == -1           \* the documented "empty status dataset" result
 IsPending(s) == s \in {65280, 65281}
 NonFinal(s) == IsPending(s) \/ (Op = "FINDREPO" /\ s = WarnLimit)
 
 \* what the peer can send
-Items == IF Op = "SINGLE" THEN {"S", "F", "INV", "WRONG", "SILENCE"}
+Items == IF Op = "SINGLE" THEN {"S", "F", "SU", "WU", "INV", "WRONG", "SILENCE"}
          ELSE {"P", "PU", "S", "W", "F", "C", "WL", "INV", "WRONG", "SILENCE"}
               \cup (IF Op \in {"GET", "MOVE"} THEN {"STORE", "FU"} ELSE {})
 \* P pending with identifier, PU pending with undecodable identifier, S success, W warning (with identifier for
 \* GET/MOVE), F failure, FU failure whose identifier cannot be decoded, C cancel, WL 0xB001, INV invalid response,
 \* WRONG a message of another service, SILENCE nothing until the DIMSE timeout, STORE a C-STORE sub-operation request
+\* SU / WU (single-response DIMSE-N calls): a Success / Warning response whose reply data set cannot be decoded - the caller gets
+\* the documented (0110H Processing failure, None) whatever the peer's status was
 StatusOf(it) == CASE it \in {"P", "PU"} -> Pending [] it = "S" -> Success [] it = "W" -> WarnSub [] it \in {"F", "FU"} -> Failure
-                  [] it = "C" -> Cancel [] it = "WL" -> WarnLimit [] OTHER -> Empty
+                  [] it = "C" -> Cancel [] it = "WL" -> WarnLimit [] it \in {"SU", "WU"} -> ProcFail [] OTHER -> Empty
 IdentOf(it) == CASE it = "P" -> (IF Op \in {"FIND", "FINDREPO"} THEN "same" ELSE "none")
                  [] it \in {"W", "F", "C"} /\ Op \in {"GET", "MOVE"} -> "same"
                  [] OTHER -> "none"
@@ -70,7 +73,8 @@ C24_FailCleanP(sc, y, ab) ==
       /\ Len(y) > 0 /\ y[Len(y)].st = Empty /\ y[Len(y)].ident = "none" /\ y[Len(y)].item = k
       /\ ab
 \* an identifier that cannot be decoded is reported as None (and only once: OnceInOrder)
-C24_UndecodableP(sc, y) == \A i \in 1..Len(y) : (y[i].item \in 1..Len(sc) /\ sc[y[i].item] \in {"PU", "FU"}) => y[i].ident = "none"
+C24_UndecodableP(sc, y) == \A i \in 1..Len(y) : (y[i].item \in 1..Len(sc) /\ sc[y[i].item] \in {"PU", "FU", "SU", "WU"}) =>
+                                                     (y[i].ident = "none" /\ (sc[y[i].item] \in {"SU", "WU"} => y[i].st = ProcFail))
 C24_NoLockP(locks) == \A i \in 1..Len(locks) : ~locks[i]
 
 Repo == Op = "FINDREPO"
